@@ -32,6 +32,7 @@ def dispatch (line : String) : String :=
   | "C08" :: rest => Pbf.handleC08 rest
   | "C09" :: rest => Pbf.handleC09 rest
   | "C06" :: rest => Pbf.handleC06 rest
+  | "C07" :: rest => Pbf.handleC07 rest
   | "C16" :: rest => C17.handle rest
   | "C12" :: rest => C11.handle rest
   | _ => "bad-op"
